@@ -5,8 +5,7 @@ PENDING = {}
 props = [f"C{i:02d}" for i in range(1, 21)]
 from sa.tables.registry import REG
 ntab = {k: len(v) for k, v in REG.items()}
-ntab["C01"] = ntab.get("C01", 0) + 14
-ntab["C02"] = ntab.get("C02", 0) + 2
+ntab["C01"] = ntab.get("C01", 0) + 10    # the hand-written tables of sa/props/c01_tables.py
 checks, na = [], []
 for p in props:
     path = f"/verif/sa/props/{p.lower()}.py"
